@@ -1302,7 +1302,7 @@ func createStress(w *vh.W, variant string, rounds int) {
 			}
 		}
 		together(fs...)
-		bad := ""
+		bad, badKey := "", ""
 		want := base
 		for i, k := range keys {
 			got := map[int64]bool{}
@@ -1320,17 +1320,17 @@ func createStress(w *vh.W, variant string, rounds int) {
 			want += uint64(G*16 + len(k))
 			if len(lost) > 0 && bad == "" {
 				bad = fmt.Sprintf("key %q: acknowledged timestamps %v are not returned by Values (holds %d of %d)", k, lost, len(got), G)
-				c.Key = k
+				badKey = k
 			}
 		}
 		if sz := cache.Size(); sz != want && bad == "" {
 			bad = fmt.Sprintf("Size()=%d, accounted %d (base %d + %d keys x (%d x 16 + len))", sz, want, base, K, G)
-			c.Key = keys[0]
+			badKey = keys[0]
 		}
 		if bad != "" {
 			c.Anomalies++
 			if c.Example == "" {
-				c.Example, c.Round, c.Goroutines, c.MaxProcs, c.Yield = bad, r, G, procs, yield
+				c.Example, c.Round, c.Goroutines, c.MaxProcs, c.Yield, c.Key = bad, r, G, procs, yield, badKey
 			}
 		}
 		// keep the cache small: drop this round's keys, start the next round from a clean size
